@@ -41,6 +41,10 @@ def shard(prop, tier, seed, shard, nshards):
     acc = core.Acc(PROP, budget_s=150 if tier == "quick" else 1500)
     n = 250 if tier == "quick" else 10000
     core.drive(gen.cases(min_sims=2), check_case, acc, n, seed * 1000 + shard)
+    if tier == "thorough":
+        # a minority of oversized scenarios (up to 7 simulators, until 12, 12 connections)
+        core.drive(gen.cases(min_sims=4, max_sims=7, max_until=12, max_conns=12, debug_ok=False), check_case, acc,
+                   n // 8, seed * 1000 + 900 + shard)
     micro = sorted(gen.micro_scenarios().items())
     runs, complete = 0, True
     for i, (name, scn) in enumerate(micro):
